@@ -5,10 +5,10 @@ from sim import core
 from ref import codec as RC
 from ref.peer import RefPeer, PeerEOF
 
-TRACE_FILES = ("rpyc/core/protocol.py", "rpyc/core/async_.py", "rpyc/utils/helpers.py")
+TRACE_FILES = ("rpyc/core/protocol.py", "rpyc/core/async_.py", "rpyc/utils/helpers.py", "rpyc/lib/__init__.py")
 TRACE_FUNCS = {"serve", "_dispatch", "_dispatch_request", "_seq_request_callback", "_async_request", "_send", "_send_data",
                "_get_seq_id", "sync_request", "async_request", "__call__", "wait", "ready", "value", "_bg_server", "poll", "poll_all",
-               "expired", "set_expiry", "_unbox", "_netref_factory"}
+               "expired", "set_expiry", "_unbox", "_netref_factory", "__init__", "timeleft"}
 
 D7_SIG = "wait-entered-after-another-thread-received-the-reply"
 D7_WHAT = ("a thread entered a blocking wait (channel.poll holding the receive lock, or Condition.wait) after another thread had received "
